@@ -24,7 +24,7 @@ from redress.strategies import retry_after_or  # noqa: E402
 JOBS = {"quick": 4, "thorough": 16}
 FLOAT_MAX_INT = int(1.7976931348623157e308)
 CASINGS = ["Retry-After", "retry-after", "RETRY-AFTER", "rEtRy-AfTeR"]
-DATE_TOL = 5.0
+DATE_TOL = 1.5
 
 
 class Http429(Exception):
@@ -381,10 +381,19 @@ def work(ctx, tier):
             tag = "non-string"
         check_value(v, rng.choice(SHAPES), rng.choice(CASINGS), rng.choice(["headers", "response", "attr"]), tag)
 
+    # ------------------------------------------------------------------ the same HTTP-date seen again later
+    # a date hint is "the time until that date" at the moment of asking: asking again later must give less
+    repeat = [(v, d) for v, d in date_cases if (d - now).total_seconds() > 20][:6]
+
     # ------------------------------------------------------------------ end to end
     n2 = (10000 if tier == "quick" else 160000) // ctx.nshards
     for i in range(n2):
         _end_to_end(ctx, viol, rng, i)
+    for v, d in repeat:
+        check_value(v, "dict", "Retry-After", "headers", "http-date-first", date_instant=d)
+    env._REAL["sleep"](2.6)  # real time must pass (datetime.now() cannot be interposed); nothing else is parsed meanwhile
+    for v, d in repeat:
+        check_value(v, "dict", "Retry-After", "headers", "http-date-again-later", date_instant=d)
     if ctx.shard == 0:
         ctx.sample({"value": "9" * 20 + "...(len 309)", "shape": "dict", "where": "headers", "expect": "no raise; hint None or non-negative float"})
         ctx.sample({"value": date_cases[5][0], "shape": "pairs", "casing": "RETRY-AFTER", "expect": "hint ~ 30 s"})
@@ -480,6 +489,7 @@ def conclude(ctx):
         "kind:odd-date": (ctx.cnt["kind:odd-date"], 50),
         "timezone:XST-9": (ctx.cnt["timezone:XST-9"], 1),
         "timezone:XST5": (ctx.cnt["timezone:XST5"], 1),
+        "kind:http-date-again-later": (ctx.cnt["kind:http-date-again-later"], 4),
     }
     return dict(
         rule=(
